@@ -105,6 +105,18 @@ def run(ctx):
                   f"the Gaussian kernel differs from the documented pulse {want_p!r}: its half-maximum width is no longer T for every order m (or its support / chirp term changed)"[:600])
     else:
         ctx.unknown("C05.1", fi, fi.node, "DAC [gaussian]: pulse kernel", "convolution call not found")
+    # a name is known only as a whole: pieces of the documented names (what a substring test `shape in "gaussian"` lets through) and
+    # the empty string are unknown shapes too
+    for frag in ("aussia", "ian", "g", "z", ""):            # pieces nobody would add as an alias
+        itf = Interp(pkg, assumptions={"pulse_shape": frag, "BW": None}, param_classes={"input": "binary_sequence"})
+        outs_f = itf.run(fi)
+        acc = [o for o in outs_f if o.kind == "return"]
+        if acc:
+            ctx.violation("C05.4", fi, acc[0].node, f"DAC: pulse_shape={frag!r}", f"the fragment {frag!r} of a documented shape name is accepted as a pulse shape (a membership test against a string is a "
+                          "substring test): unknown pulse shapes are not rejected with ValueError")
+            break
+    else:
+        ctx.holds("C05.4", fi, fi.node, "DAC: fragments of the shape names", "rejected like any unknown shape")
     it = Interp(pkg, assumptions={"pulse_shape": "triangle", "BW": None}, param_classes={"input": "binary_sequence"})
     outs = it.run(fi)
     ctx.check("C05.4", bool(outs) and all(o.kind == "raise" for o in outs) and outs[-1].exc == "ValueError", fi, fi.node, "DAC: unknown pulse_shape", "raises ValueError", "an unknown pulse shape does not raise ValueError")
